@@ -25,7 +25,7 @@ where
         let calculated = key.key_id()?;
         let keyid_hex = hex::encode(&keyid);
         ensure!(
-            keyid.as_ref()[..24] == calculated.as_ref()[..24],
+            keyid == calculated,
             error::InvalidKeyIdSnafu {
                 keyid: &keyid_hex,
                 calculated: hex::encode(&calculated),
